@@ -4,14 +4,53 @@ import os
 
 V = os.path.dirname(os.path.dirname(os.path.abspath(__file__)))
 
+NOTE = ("proof about a hand-written Gallina model tied to /repo by a behavioural correspondence evaluated inside Coq (vm_compute over exact rationals / Gaussian rationals) on inputs the real code was just run on; "
+        "trusted: Coq kernel + vm_compute, the model's faithfulness beyond the explored inputs, the Python harness (generation, float->dyadic conversion, literal emitters, parsers), numerical libraries as oracles; tolerance 1e-9 (1e-7 for solver iterates)")
+
 CHECKS = {
-    "C01": ("Theorem C01_adjoint_of_matrix (Coq, all matrices over any star ring, all u, v): <A u,v> = <u,A^H v>; per zoo configuration the obligation 'adjoint matrix = conjugate transpose of forward matrix' is evaluated inside Coq (vm_compute over exact rationals / Gaussian rationals) on matrices extracted from the running implementation, which instantiates the theorem for all vectors; family models (Ops/) prove adjointness for all sizes.",
-            "proof about hand-written model + behavioural correspondence (matrix extraction by unit vectors, operator = mv of its matrix checked on non-basis inputs); tolerance 1e-9(1+|.|); numpy/scipy/numba/pyfftw/pywt are oracles; configurations limited to the zoo grid",
+    "C01": ("Theorems C01_adjoint_of_matrix / C01_adjoint_unique (all matrices over any star ring, all u, v): <A u,v> = <u,A^H v> and conversely; per zoo configuration the obligation 'adjoint matrix = conjugate transpose of forward matrix' is evaluated inside Coq on matrices extracted from the running implementation, which instantiates the theorem for all vectors; family models (Ops/) prove adjointness for all sizes.",
             "Coq theorem + in-Coq evaluation of extracted matrices", "4 C01"),
-    "C02": ("Theorem C02_mv_linear / C02_mv_zero / C02_mv_unit (Coq, every matrix, all x, y, a, b); the model of an operator is multiplication by the matrix extracted from it, and the correspondence (implementation output = mv A x on random integer vectors, exact linear combinations and zero, both directions) is evaluated inside Coq.",
-            "as C01; inputs are small-integer (Gaussian-integer) vectors so that linear combinations are exact",
+    "C02": ("Theorems C02_mv_linear / C02_mv_zero / C02_mv_unit (every matrix, all x, y, a, b); the model of an operator is multiplication by the matrix extracted from it, and the correspondence (implementation output = mv A x on random integer vectors, exact linear combinations and zero, both directions) is evaluated inside Coq.",
             "Coq theorem + in-Coq correspondence impl vs mv(A_impl)", "4 C02"),
+    "C03": ("Deep embedding of operator expressions (Algebra/Expr.v): theorems by structural induction for every nesting depth and operator mix: ap Fwd e = mv (dense e), ap Adj e = mv (dense e)^H, matmat = columnwise matvec, H/T/conj rules, involutions, adjoint of a compound is well-formed with swapped shape; random expression trees are built both as pylops objects and as Gallina terms and compared inside Coq.",
+            "structural induction over expression trees + differential execution of trees", "4 C03"),
+    "C04": ("Pure decision model of LinearOperator.dot / reshaped / forceflat (State/DotDispatch.v) with theorems dispatch_dims/cols/flat/rejects/flag_off, and the global N-d flag as a state machine (State/ConfigFlag.v) with flag_restored for every program nesting and exception position; outcome classes and shapes of the implementation are compared with the model inside Coq for operators x input layouts x flag values, and all flag programs up to a depth are executed with real with-blocks.",
+            "Coq decision-logic model + exhaustive small flag programs + layout grid", "4 C04"),
+    "C05": ("Per interchangeable pair of engines / flags the two dense matrix pairs extracted from the implementation are compared inside Coq (equal matrices => equal on all inputs by mv extensionality, Props/C05.v); FFT engine models (Ops/DFTEngines.v) are proved equal for all sizes.",
+            "Coq theorem (matrix equality => map equality) + in-Coq comparison of engine pairs", "4 C05"),
+    "C06": ("Interleaving semantics of parallel loops (State/Par.v): disjoint per-iteration footprints => every partition and interleaving equals sequential execution; overlapping updates => a lost-update schedule exists. Footprints of every numba prange kernel are measured on the real kernel bodies and their disjointness is decided inside Coq; runtime runs with several thread counts support the search.",
+            "Coq schedule-independence theorem + measured footprints of real kernels", "4 C06"),
+    "C07": ("Code-shaped models and documented-formula specifications of the elementary operators (Ops/*.v) with theorems model = spec and adjoint pair for all sizes/parameters; the implementation's dense matrices are compared inside Coq with the specification matrices over the documented parameter grid.",
+            "Coq spec theorems + in-Coq comparison of implementation matrices with documented formulas", "4 C07"),
+    "C08": ("DFT over an abstract ring with a principal root of unity (Ops/DFT.v): adjoint, inversion, unitarity for ortho, zero-padding, per-engine scale placement and '/' (DFTEngines.v); round trips Op.H Op x, Op/(Op x), inv() of the implementation on exact inputs are compared with x inside Coq.",
+            "Coq DFT theorems + in-Coq round-trip checks", "4 C08"),
+    "C09": ("State-machine models of CG / CGLS (Solvers/CG.v, CGLS.v) mirroring setup/step/run; theorems: residual invariants for all k, cgls simulates cg on the normal equations; per-iteration iterates of the implementation are compared with the exact rational model, the model's n-th iterate is certified to solve the (damped) normal equations exactly; lsqr is compared iterate by iterate with SciPy's lsqr.",
+            "Coq invariants by induction + exact-rational replay of solver iterates", "4 C09"),
+    "C10": ("Same models as C09 extended with cost history and callback log: |cost| = 1 + iiter, callbacks are the iterates in order, cost entries equal true residual norms (squares compared exactly), cgls r1norm/r2norm; functional monotone; returned tuples and logs of the implementation compared with the model inside Coq.",
+            "Coq theorems on diagnostics + exact replay", "4 C10"),
+    "C11": ("Generic solver driver state machine (Solvers/Drivers.v): run_split / run = step^k / solve = setup;run;finalize for all driving programs; the three driving styles of every solver are executed on the implementation on random programs and compared; inputs are compared bitwise before/after, aliasing and the global flag are observed after every call.",
+            "Coq driver theorems + differential execution of driving programs + byte/alias observation", "4 C11"),
+    "C12": ("Documented augmented least-squares functional and its normal equations (Solvers/LeastSquares.v): normal_eq_minimises (all problems), assembly_normal_correct, stack_normal_eq, x0 shift, preconditioned change of variables, three_agree; returned x of every formulation/engine is certified inside Coq against the exact normal equations N x = rhs, assemblies compared exactly.",
+            "Coq optimality theorem + in-Coq certificate checking of returned solutions", "4 C12"),
+    "C13": ("Threshold functions and ISTA step over an ordered field (Solvers/Thresh.v, ISTA.v): soft is the prox of t|.|, descent of the objective under the step-size premise from any x, fixed point <=> KKT; thresholds and ISTA/FISTA iterates of the implementation are compared with the exact model inside Coq, objective monotonicity evaluated exactly.",
+            "Coq prox/descent theorems + exact replay of iterates", "4 C13"),
+    "C14": ("OMP / matching pursuit state machine (Solvers/OMP.v) with selection as a relation: support, residual orthogonality on every reachable state, cost truthful and monotone, MP step identity; the implementation's runs are replayed on exact rationals with its own choices and every clause is checked inside Coq (exact Gauss-Jordan on the restricted normal equations).",
+            "Coq invariants over reachable states + exact replay with certificate", "4 C14"),
+    "C15": ("Operator state patterns (State/Buffered.v): history independence and no-alias theorems for buffered (FFTW-plan) operators and idempotent cache rewrites; random call histories on every zoo operator are compared with a fresh instance and with mv(A_impl), inputs bitwise unchanged, earlier results unchanged, alias maps observed.",
+            "Coq history-independence theorem + call-history differential testing", "4 C15"),
+    "C16": ("MemoizeOperator state machine (State/Memoize.v): for every history each call returns Op_d x' for a stored-or-current x' close to x, store bounded by max_neval, one evaluation per miss; random histories (repeats, feedback of outputs, near-equal inputs, caller mutation) are run on the implementation and compared with the model inside Coq and with the bare operator.",
+            "Coq invariant over all histories + differential history execution", "4 C16"),
+    "C17": ("Theorems C17_dense_of_columns / C17_dense_of_adjoint_columns / ctranspose_involutive (both paths of todense of the matrix model return the matrix of columns Op e_j); todense(), tosparse(), A, explicit trace, eigs() (power-sum certificate) and Op / y of the implementation are compared inside Coq with the matrix of columns.",
+            "Coq transposition theorems + in-Coq comparison of views and exact certificates", "4 C17"),
+    "C18": ("Model of the dot-test verdict (State/DotTest.v): accepts every exact adjoint pair for all u, v, tolerances; rejects (1+d)-scaled adjoints above tolerance; verdict is the isclose predicate of the defect u^H(B - A^H)v; the random vectors dottest draws are re-derived, passed exactly to Coq, and the Coq verdict compared with the function's return value / AssertionError.",
+            "Coq verdict theorems + exact re-evaluation of each dottest call", "4 C18"),
+    "C19": ("Gradient identity and layout logic of the autodiff wrappers (State/Autodiff.v): vjp is the adjoint, expansion of ||A(x+td)-y||^2, batch-axis permutations are inverse, batched application acts row-wise for all ranks; forward values and reverse-mode gradients from torch, jax and pytensor are compared inside Coq with mv M x and mvT M g.",
+            "Coq identities + in-Coq comparison of framework gradients", "4 C19"),
+    "C20": ("Models of convmtx, the dense derivative matrices and the matrix-free chains (Ops/Seismic.v) with equality theorems; dense matrices of explicit and matrix-free post-stack / pre-stack / MDC constructions of the implementation are compared with each other and with the model inside Coq. The Zoeppritz-limit clause is not claimed.",
+            "Coq equality theorems + in-Coq comparison of both constructions", "4 C20"),
 }
+
+READY = ["C01", "C02", "C03", "C14", "C17", "C18"]
 
 
 def main():
@@ -21,7 +60,7 @@ def main():
         "hooks": {"guard": "PYLOPS_VERIF", "enable": "no source hooks are needed; checks run /repo's working tree through PYTHONPATH=/repo",
                   "baseline_off_cmd": "cd /repo && /venv/bin/python -m pytest -ra -q -p no:cacheprovider --timeout=900 --continue-on-collection-errors",
                   "source_commits": [], "add_only": True},
-        "engines": [{"name": "coq-model+correspondence", "path": "/verif/check", "serves_properties": sorted(CHECKS),
+        "engines": [{"name": "coq-model+correspondence", "path": "/verif/check", "serves_properties": sorted(READY),
                      "kind_free_text": "Coq 8.16.1 development (coq/theories) + Python differential harness evaluating the Gallina model inside Coq"}],
         "checks": [],
         "not_applicable": [],
@@ -29,8 +68,9 @@ def main():
     }
     allp = [json.loads(l)["id"] for l in open(os.path.join(V, "properties.jsonl"))]
     for pid in allp:
-        if pid in CHECKS:
-            text, note, tech, ref = CHECKS[pid]
+        if pid in READY:
+            text, tech, ref = CHECKS[pid]
+            note = NOTE
             man["checks"].append({
                 "property_id": pid, "quick_cmd": "./check %s quick" % pid, "thorough_cmd": "./check %s thorough" % pid,
                 "evidence_file": "/verif/evidence/%s.json" % pid, "replay_cmd_template": "./check replay {path}",
